@@ -62,6 +62,9 @@ impl Primitive {
         match self {
             Primitive::Null => write!(out, "null")?,
             Primitive::Integer(i) => write!(out, "{}", i)?,
+            // beyond 2^24 the shortest decimal form of an integral f32 is not its exact value
+            // (2147483648.0 prints as 2147483600): keep it a real so that it reads back unchanged
+            Primitive::Number(n) if n.abs() >= 16777216.0 => write!(out, "{}.0", n)?,
             Primitive::Number(n) => write!(out, "{}", n)?,
             Primitive::Boolean(b) => write!(out, "{}", b)?,
             Primitive::String(ref s) => s.serialize(out)?,
